@@ -305,6 +305,9 @@ func (o *Obligation) caseQuery(c string) string {
 func (o *Obligation) query(getModel bool) string {
 	var b strings.Builder
 	e := o.Enc
+	if e == nil {
+		return "" // decided by the static may-write analysis, no SMT query
+	}
 	for _, d := range e.decls[:o.NDecls] {
 		b.WriteString(d)
 		b.WriteString("\n")
